@@ -564,7 +564,7 @@ pub fn run(out: &mut Out, seed: u64, thorough: bool, scn: Option<&str>) {
     }
     // directed receiver histories: label A accepted, then a start/complete packet carrying label B that is
     // rejected for one of several reasons, then a re-use packet: it must not be attributed to A
-    for reason in 0..6 {
+    for reason in 0..9 {
         for first_b in [false, true] {
             for first_ru in [false, true] {
                 let mgr = TableMgr { known: vec![(0x0042, false, 3)] };
@@ -597,7 +597,10 @@ pub fn run(out: &mut Out, seed: u64, thorough: bool, scn: Option<&str>) {
                         v.truncate(v.len() - 2); // announced length exceeds the buffer
                         v
                     }
-                    _ => mk(&[7; 8], 0x0042, vec![1, 2]),                 // known extension, chain cut short
+                    5 => mk(&[7; 8], 0x0042, vec![1, 2]),                 // known extension, chain cut short
+                    6 => mk(&[], 0x0042, vec![1, 2]),                     // ... cut by the GSE length itself (data incomplete)
+                    7 => mk(&[], 0x0211, vec![0xAA]),                     // optional extension, data incomplete
+                    _ => mk(&[], 0x0211, vec![0xAA, 0xBB]),               // data complete, the type field after it is missing
                 };
                 feed(out, &mut rx, &bytes, vec![]);
                 for x in taken {
